@@ -260,20 +260,41 @@ impl Monitor {
         }
     }
 
-    pub fn judge(trace: &[Ev]) -> Judged {
+    /// Judge a trace for property `prop`. A violation of a purely observational rule (statistics
+    /// comparisons, which do not touch the model state) that does not speak for `prop` is remembered and
+    /// the judgement continues, so that its consequences for `prop` can still be seen.
+    pub fn judge_for(trace: &[Ev], prop: &str) -> Judged {
         let mut m = Monitor::new();
         let mut violation = None;
+        let mut soft_foreign = None;
         for (i, ev) in trace.iter().enumerate() {
             if m.stop {
                 break;
             }
             if let Some((mut v, props)) = m.feed(ev) {
                 v.detail = format!("{} [trace entry {} = {:?}]", v.detail, i, ev);
+                let mine = props.contains(&prop) || v.rule.starts_with(prop);
+                // On a tree where every rule holds nothing is ever remembered here; on a broken tree the
+                // judgement goes on past rules that do not speak for `prop`, so that the consequences the
+                // breakage has for `prop` (e.g. the victim's events no longer dispatched) are seen as well.
+                if !mine && !prop.is_empty() && !m.stop {
+                    if soft_foreign.is_none() {
+                        soft_foreign = Some((v, props));
+                    }
+                    continue;
+                }
                 violation = Some((v, props));
                 break;
             }
         }
+        if violation.is_none() {
+            violation = soft_foreign;
+        }
         Judged { violation, facts: m.facts }
+    }
+
+    pub fn judge(trace: &[Ev]) -> Judged {
+        Self::judge_for(trace, "")
     }
 
     fn taint(&mut self, s: SrcId, why: &'static str) {
@@ -382,7 +403,7 @@ impl Monitor {
         if let Some(o) = others.first() {
             return viol(
                 "C09.target",
-                &["C09", "C01", "C06"],
+                &["C09", "C01", "C06", "C07"],
                 format!(
                     "after source #{s} ({}) returned {:?}{} the loop called {:?} on source #{} ({})",
                     kind_name(&self.srcs[s].kind),
@@ -403,7 +424,7 @@ impl Monitor {
         let bad = |what: &str| -> V {
             viol(
                 "C09.once",
-                &["C09"],
+                &["C09", "C07", "C06"],
                 format!(
                     "source #{s} ({}) effective post-action {:?} (removed in own callback: {}): {what}; saw {regs} register, {reregs} reregister, {unregs} unregister",
                     kind_name(&self.srcs[s].kind),
